@@ -38,7 +38,7 @@ func encodeAnnots(as []ref.Annot) string {
 		if i > 0 {
 			sb.WriteByte(',')
 		}
-		fmt.Fprintf(&sb, "%d:%d", a.Off, a.Width)
+		fmt.Fprintf(&sb, "%d:%d:%s", a.Off, a.Width, a.Kind)
 	}
 	return sb.String()
 }
@@ -52,7 +52,11 @@ func decodeAnnots(s string) []ref.Annot {
 		ow := strings.Split(p, ":")
 		off, _ := strconv.Atoi(ow[0])
 		w, _ := strconv.Atoi(ow[1])
-		out = append(out, ref.Annot{Off: off, Width: w, Kind: "code"})
+		kind := "code"
+		if len(ow) > 2 {
+			kind = ow[2]
+		}
+		out = append(out, ref.Annot{Off: off, Width: w, Kind: kind})
 	}
 	return out
 }
@@ -80,6 +84,24 @@ func sweepItems(valid []byte, fields []ref.Annot, visit func(sweepItem) bool) {
 	for n := 0; n < len(valid); n++ {
 		if cuts[n] && !visit(sweepItem{fmt.Sprintf("truncate@%d", n), valid[:n]}) {
 			return
+		}
+	}
+	// every 4-byte count at once: products of two plausible sizes (rows x columns, entries x width)
+	var counts []ref.Annot
+	for _, a := range fields {
+		if a.Width == 4 && a.Kind == "count" {
+			counts = append(counts, a)
+		}
+	}
+	if len(counts) >= 2 {
+		for _, val := range productHostile {
+			b := append([]byte{}, valid...)
+			for _, a := range counts {
+				setField(b, a, val)
+			}
+			if !visit(sweepItem{fmt.Sprintf("counts all=%#x", val), b}) {
+				return
+			}
 		}
 	}
 	for _, a := range fields {
